@@ -91,7 +91,7 @@ CLAIMED = {
     'C19': ('E1', 'exploration', 'property-based testing (Hypothesis): generated inbound probes in four session states against a protocol model of the expected number',
             'Probes (number equal/lower/higher, PossDupFlag, OrigSendingTime, CompIDs, "34=" look-alikes in header sub-IDs, corrupt variants) are fed to a real session brought into continuous, '
             'resend-request-sent, test-request-sent or logon-sent state through real traffic; delivery, ResendRequest, Logout and Reject are checked as implications of the statement.',
-            'One open known finding (higher number while a TestRequest is pending ends the session): class excluded by construction and counted, reproducer replayed on every run.', '4/C19 and 10.7'),
+            'The application callback is the sample applications\' (deliver unless enforce() objects); implications only, see assumptions in the evidence file.', '4/C19 and 10.7'),
     'C22': ('E1', 'exploration', 'model-based property-based testing (Hypothesis) on a virtual clock: generated timelines against a supervision model, two-model oracle for the open finding',
             'Timelines of clock advances (ms resolution, biased to the H and 1.2H boundaries), supervision ticks (the real heartbeat_service), sends and inbound traffic for H in 1..120; at every '
             'tick the outbound messages are compared with what the model demands (Heartbeat, TestRequest, Logout+termination) and forbids (Logout before the TestRequest had its period).',
@@ -100,6 +100,11 @@ CLAIMED = {
             'Acceptor: CompID enforcement, client lists, TargetCompID right/wrong, HeartBtInt echo, ResetSeqNumFlag with and without stored numbers; initiator: mirrored / partly wrong Logon responses; '
             'SessionID == / != over all equal/unequal combinations of the two CompIDs, built from parts and from the id string.',
             'No SessionConfig object (persister handed in, as the unit tests do); client entries without IP restriction.', '4/C23 and 10.7'),
+    'C20': ('E1', 'exploration', 'model-based property-based testing (Hypothesis): generated loss/reconnect histories driven by a Python model of a conformant FIX counterparty',
+            'A conformant counterparty model (own numbering and store, PossDup replays, gap-fills for administrative messages, answers a ResendRequest at once or after one more new message) '
+            'drives the real session through generated histories of delivered and lost messages and reconnects whose Logon may be above the expected number; the session must never log out '
+            'or terminate, every application message must reach the application at least once, and at quiescence the expected number must equal the counterparty\'s next number.',
+            'Quiescence of finite histories stands in for "eventually"; the session under test runs in the coroutine model on the in-memory socket with a MemoryPersister.', '4/C20 and 10.7'),
 }
 
 
